@@ -52,7 +52,7 @@ def run_shard(prop, spec, scratch, timeout):
 
 
 def merge(results):
-    m = {"counters": Counter(), "sets": {}, "evaluations": 0, "distinct": set(), "samples": [],
+    m = {"counters": Counter(), "sets": {}, "evaluations": 0, "distinct": set(), "samples": [], "distinct_bulk": 0,
          "violations": [], "n_violations": 0, "viol_keys": Counter(), "notes": [], "failed": []}
     for r in results:
         if "failed" in r:
@@ -63,6 +63,7 @@ def merge(results):
             m["sets"].setdefault(k, set()).update(v)
         m["evaluations"] += r["evaluations"]
         m["distinct"].update(r["distinct"])
+        m["distinct_bulk"] += r.get("distinct_bulk", 0)
         m["samples"] += r["samples"][:2]
         m["violations"] += r["violations"]
         m["n_violations"] += r["n_violations"]
@@ -131,13 +132,14 @@ def main():
         reasons.append("shards failed: " + json.dumps(m["failed"])[:1500])
     if unmet:
         reasons.append("monitors under-observed (seen,min): " + json.dumps(unmet))
-    if len(m["distinct"]) < 2 or m["evaluations"] < 1:
+    ndistinct = len(m["distinct"]) + m["distinct_bulk"]
+    if ndistinct < 2 or m["evaluations"] < 1:
         reasons.append("too few cases")
 
     extra = mod.finish(m, args.tier) if hasattr(mod, "finish") else {}
     cov = {
         "evaluations": m["evaluations"],
-        "distinct_nontrivial": len(m["distinct"]),
+        "distinct_nontrivial": ndistinct,
         "rule": mod.RULE,
         "samples": m["samples"][:8],
         "exhaustive": bool(extra.pop("exhaustive", False)),
@@ -166,7 +168,7 @@ def main():
         f.write("\n")
 
     print("%s tier=%s seed=%d evaluations=%d distinct=%d wall=%.1fs" %
-          (prop, args.tier, seed, m["evaluations"], len(m["distinct"]), time.time() - t0))
+          (prop, args.tier, seed, m["evaluations"], ndistinct, time.time() - t0))
     for k, n in sorted(known_hits.items()):
         print("KNOWN-FINDING: property=%s %s [%s] (%d observations)" % (prop, known[k], k, n))
     if unknown:
